@@ -150,6 +150,8 @@ package daemon
 //@ # ---- pod GC: collects exactly the pods whose absence the API server confirmed, under the exclusive service lock ----
 //@ ghost c09absent bool = false
 //@ ghost c09relerr bool = false
+//@ # the pass itself cannot proceed: listing pods or records failed, or the store refused a write of a sticky record
+//@ ghost c09fatal bool = false
 
 //@ func networkService.gcPods
 //@   requires n != nil && n.k8s != nil && n.eniMgr != nil && n.resourceDB != nil
@@ -158,7 +160,14 @@ package daemon
 //@   at call Kubernetes.PodExist: ghost c09absent = (!result0 && result1 == nil)
 //@   at call Kubernetes.PodExist: ghost c09relerr = false
 //@   at call Manager.Release: ghost c09relerr = (c09relerr || result != nil)
-//@   loop 3 invariant !c09relerr
+//@   at call Kubernetes.GetLocalPods: ghost c09fatal = (result1 != nil)
+//@   at call List: ghost c09fatal = (result1 != nil)
+//@   at call Put: ghost c09fatal = (result != nil)
+//@   loop 2 invariant !c09fatal
+//@   loop 3 invariant !c09relerr && !c09fatal
+//@   loop 4 invariant !c09fatal
+//@   # a pod whose cleanup fails (kernel rules, release, record delete) never ends the pass for the other pods
+//@   ensures result != nil ==> c09fatal
 
 //@ # a pod is collected only if it is not in the node's pod list and the API server answered, without error, that it does not exist
 //@ guard call Manager.Release in gcPods: c09absent && !(podID in exist)
